@@ -557,7 +557,7 @@ const (
 // package-level functions replaced by same-purpose functions of the shim
 var shimFuncs = map[string]string{
 	"os.Stat": "FSStat", "os.Lstat": "FSLstat", "os.MkdirAll": "FSMkdirAll", "os.Rename": "FSRename",
-	"os.RemoveAll": "FSRemoveAll", "os.Remove": "FSRemove", "os.Create": "FSCreate", "os.Open": "FSOpen",
+	"os.RemoveAll": "FSRemoveAll", "os.Remove": "FSRemove", "os.Create": "FSCreate", "os.Open": "FSOpen", "os.OpenFile": "FSOpenFile",
 	"io/ioutil.WriteFile": "FSWriteFile", "io/ioutil.ReadFile": "FSReadFile", "io/ioutil.TempFile": "FSTempFile",
 	"os.WriteFile": "FSWriteFile", "os.ReadFile": "FSReadFile", "os.CreateTemp": "FSTempFile",
 	"path/filepath.Walk": "FSWalk", "path/filepath.Glob": "FSGlob",
